@@ -41,6 +41,24 @@ def case : P String := do
       match GridSearch.applyInputPlugins [GridSearch.process] q with
       | .ok qs => pure (joinSp (("ok " ++ toString qs.length) :: qs.map JsonProto.enc))
       | .error e => pure ("perr " ++ JsonProto.enc e.request)
+  | "jop" => do
+    let st ← JsonProto.json
+    let elems := match st with
+      | .arr xs => xs
+      | _ => []
+    if elems.any (fun q => match GridSearch.processO q with
+        | .ok _ => false
+        | _ => true) then pure "panic"
+    else
+      match GridSearch.jsonArrayOp GridSearch.process st with
+      | .error e => pure ("perr " ++ JsonProto.enc e.request)
+      | .ok after =>
+        let fin : Except (GridSearch.PipeErr GridSearch.ErrKind) (List Json) :=
+          GridSearch.jsonArrayFlatten after
+        match fin with
+        | .ok qs =>
+          pure (joinSp (("ok " ++ JsonProto.enc after ++ " fok " ++ toString qs.length) :: qs.map JsonProto.enc))
+        | .error e => pure ("ok " ++ JsonProto.enc after ++ " ferr " ++ JsonProto.enc e.request)
   | _ => failure
 
 def run (line : String) : String := Proto.run case line
